@@ -173,6 +173,8 @@ structure CollWl where
   memberLimit : Nat
   admins : List Bytes
   mutable : Bool
+  /-- `Config.start_time` in nanoseconds: `RemoveMembers` is refused from this instant on (`AddMembers` never is) -/
+  start : Nat := 0
 
 /-- `execute_add_members` with `to_add = [member]`, sent by `sender` -/
 def CollWl.addMember (w : CollWl) (sender member : Bytes) : Except Err CollWl :=
@@ -181,9 +183,10 @@ def CollWl.addMember (w : CollWl) (sender member : Bytes) : Except Err CollWl :=
   else if w.members.contains member then .ok w
   else .ok { w with members := member :: w.members }
 
-/-- `execute_remove_members` with `to_remove = [member]` (before the whitelist's start time) -/
-def CollWl.removeMember (w : CollWl) (sender member : Bytes) : Except Err CollWl :=
+/-- `execute_remove_members` with `to_remove = [member]` at block time `now` (only before the whitelist's start time) -/
+def CollWl.removeMember (w : CollWl) (now : Nat) (sender member : Bytes) : Except Err CollWl :=
   if ¬ w.admins.contains sender then .error .unauthorized
+  else if w.start ≤ now then .error .invalid
   else if ¬ w.members.contains member then .error .notFound
   else .ok { w with members := w.members.filter (· != member) }
 
@@ -192,12 +195,19 @@ def CollWl.updateAdmins (w : CollWl) (sender : Bytes) (admins : List Bytes) : Ex
   if ¬ (w.mutable && w.admins.contains sender) then .error .unauthorized
   else .ok { w with admins := admins }
 
+/-- `execute_freeze` -/
+def CollWl.freeze (w : CollWl) (sender : Bytes) : Except Err CollWl :=
+  if ¬ (w.mutable && w.admins.contains sender) then .error .unauthorized
+  else .ok { w with mutable := false }
+
 /-! ## environment of the airdrop contract: bank balances and the minter's whitelist -/
 
 structure Env where
   bal : Bal
   /-- `MinterContract(minter).config().whitelist` resolved to that contract's state; `none` = no whitelist set -/
   cwl : Option CollWl
+  /-- block time, nanoseconds -/
+  now : Nat := 0
 
 inductive EnvOp where
   /-- coins appear in an account (bank mint / a transfer from outside the modelled accounts) -/
@@ -205,6 +215,14 @@ inductive EnvOp where
   | cwlAdd (sender member : Bytes)
   | cwlRemove (sender member : Bytes)
   | cwlAdmins (sender : Bytes) (admins : List Bytes)
+  | cwlFreeze (sender : Bytes)
+  /-- the minter's `Config.whitelist` now resolves to a whitelist in state `w` (`none`: no whitelist): the minter admin's
+  `SetWhitelist` swapping in ANOTHER contract between two claims, or any change whatsoever of the collection whitelist
+  that the operations above do not describe. Deliberately unconstrained (the rules of `SetWhitelist` belong to the
+  minter, not to this property): every history theorem holds for every such change. -/
+  | setCwl (w : Option CollWl)
+  /-- time passes (any block time; the whitelist may start or end between two claims) -/
+  | time (t : Nat)
 
 def Env.step (e : Env) : EnvOp → Except Err Env
   | .fund to amt => .ok { e with bal := credit e.bal to amt }
@@ -217,7 +235,7 @@ def Env.step (e : Env) : EnvOp → Except Err Env
   | .cwlRemove sender member =>
     match e.cwl with
     | none => .error .notFound
-    | some w => match w.removeMember sender member with
+    | some w => match w.removeMember e.now sender member with
       | .ok w' => .ok { e with cwl := some w' }
       | .error x => .error x
   | .cwlAdmins sender admins =>
@@ -226,6 +244,14 @@ def Env.step (e : Env) : EnvOp → Except Err Env
     | some w => match w.updateAdmins sender admins with
       | .ok w' => .ok { e with cwl := some w' }
       | .error x => .error x
+  | .cwlFreeze sender =>
+    match e.cwl with
+    | none => .error .notFound
+    | some w => match w.freeze sender with
+      | .ok w' => .ok { e with cwl := some w' }
+      | .error x => .error x
+  | .setCwl w => .ok { e with cwl := w }
+  | .time t => .ok { e with now := t }
 
 /-! ## the airdrop contract -/
 
@@ -276,7 +302,7 @@ def claim (C : Crypto) (s : State) (sender eth sig : Bytes) : Except Err State :
               match w.addMember s.self sender with
               | .error x => .error x
               | .ok w' =>
-                .ok { s with env := { bal := bal', cwl := some w' }, counts := bump s.counts eth }
+                .ok { s with env := { s.env with bal := bal', cwl := some w' }, counts := bump s.counts eth }
 
 /-- `query(AirdropEligible{eth_address})` -/
 def airdropEligible (s : State) (eth : Bytes) : Bool := s.eligible.contains eth
@@ -287,12 +313,18 @@ def addressCount (s : State) : Nat := s.eligible.eraseDups.length
 inductive Op where
   | claim (sender eth sig : Bytes)
   | env (e : EnvOp)
+  /-- ANY other message addressed to the airdrop contract or to its whitelist-immutable — another `execute` variant,
+  `sudo`, `migrate`, by anybody: the code has none (`ExecuteMsg` has the single variant `ClaimAirdrop`, whitelist-immutable's
+  `ExecuteMsg` is an empty enum, neither crate exports `sudo`/`migrate`), so it is refused. That this is all there is
+  is a fact about the code, validated by the harness at run time (ops `exec_raw`, schema enumeration) — not provable here. -/
+  | other (sender : Bytes)
 
 def step (C : Crypto) (s : State) : Op → Except Err State
   | .claim sender eth sig => claim C s sender eth sig
   | .env e => match s.env.step e with
     | .ok e' => .ok { s with env := e' }
     | .error x => .error x
+  | .other _ => .error .invalid
 
 /-- transactional semantics: a failed operation leaves the state unchanged -/
 def step' (C : Crypto) (s : State) (op : Op) : State :=
